@@ -1,0 +1,18 @@
+"""Verification hooks (no-ops unless JAQALPAQ_VERIF_TRACE=1 is set when this module is imported).
+
+An external conformance harness drains `events`; nothing in jaqalpaq reads them."""
+import os
+
+ENABLED = os.environ.get("JAQALPAQ_VERIF_TRACE") == "1"
+events = []
+
+
+def emit(ev, **fields):
+    if ENABLED:
+        events.append((ev, fields))
+
+
+def drain():
+    out = list(events)
+    del events[:]
+    return out
